@@ -178,12 +178,26 @@ func runSchedule(b, hb *tv.Batch, prog program, seed int64) result {
 		}
 	}
 	final := false
+	hung := false
 	d := &sched.Driver{C: ctl, Rng: rng, MaxSteps: 600}
 	d.AtQuiescence = func(parked []*sched.Parked, s sched.Snapshot) {
 		// observe only when no Add/Cancel is between its entry and its return
+		if hung {
+			return
+		}
 		if inflight() == 0 {
-			rec.ev("obs", tv.M{"done": pool.Err() != nil, "size": pool.Size(), "final": final && len(parked) == 0,
+			size, ok := timedSize(pool)
+			if !ok { // Size blocked although nothing is in flight: a lock was left held
+				hung = true
+				rec.ev("hung", tv.M{"op": "size"})
+				return
+			}
+			rec.ev("obs", tv.M{"done": pool.Err() != nil, "size": size, "final": final && len(parked) == 0,
 				"watcher": s.InFunc("kit/context.NewPool.func1")})
+		} else if final && len(parked) == 0 {
+			// the run is over, nothing is parked, everything is blocked in the runtime - and a call has not returned
+			hung = true
+			rec.ev("hung", tv.M{"op": "call"})
 		}
 	}
 	d.Extra = func(nParked int) []sched.Choice {
@@ -225,14 +239,22 @@ func runSchedule(b, hb *tv.Batch, prog program, seed int64) result {
 	rec.mu.Unlock()
 	// tear down: end everything so no watcher leaks into the next scenario
 	ctl.Shutdown()
-	func() {
-		defer func() {
-			if p := recover(); p != nil {
-				rec.ev("panic", tv.M{"op": "cancel-at-teardown", "what": fmt.Sprint(p)})
-			}
+	if !hung { // a wedged pool cannot be cancelled either; its goroutines stay blocked and are ignored from now on
+		done := make(chan struct{})
+		go func() {
+			defer close(done)
+			defer func() {
+				if p := recover(); p != nil {
+					rec.ev("panic", tv.M{"op": "cancel-at-teardown", "what": fmt.Sprint(p)})
+				}
+			}()
+			pool.Cancel()
 		}()
-		pool.Cancel()
-	}()
+		select {
+		case <-done:
+		case <-time.After(3 * time.Second):
+		}
+	}
 	cmu.Lock()
 	for _, c := range cancels {
 		c()
@@ -240,6 +262,18 @@ func runSchedule(b, hb *tv.Batch, prog program, seed int64) result {
 	cmu.Unlock()
 	_, _ = ctl.Quiesce(2 * time.Second)
 	return res
+}
+
+// timedSize calls pool.Size() but gives up after 2 s (a pool whose lock was left held would block the driver itself).
+func timedSize(pool *kitctx.Pool) (int, bool) {
+	ch := make(chan int, 1)
+	go func() { ch <- pool.Size() }()
+	select {
+	case n := <-ch:
+		return n, true
+	case <-time.After(2 * time.Second):
+		return 0, false
+	}
 }
 
 func genProgram(rng *rand.Rand) program {
